@@ -151,6 +151,29 @@ def fresh_result_per_repetition(prog, run, rid, sfx=""):
     return rt, loops
 
 
+def detector_state(prog, steps=()):
+    """the private state of a MemoryLeakDetector after its constructor and a sequence of its own public operations
+    (("startChecking", []), ("increaseAllocationStage", []), ("disableAllocationTypeChecking", []) ...): rules build their
+    detector models this way instead of naming its private members"""
+    from .common import object_state
+    DET = "MemoryLeakDetector"
+    inl = {g.qn for g in prog.functions.values() if g.qn.startswith(DET + "::")}
+    st = object_state(prog, DET, ["MemoryLeakFailure *"], [55], steps=list(steps), hooks={"SimpleMutex::SimpleMutex": lambda *a_: 0, "MemoryLeakOutputStringBuffer::clear": lambda *a_: 0}, inline=inl)
+    return st
+
+
+def detector_reads(prog, state):
+    """(allocation number the next record gets, current allocation stage) read through the detector's own getters"""
+    from cpv.ceval import Evaluator
+    out = []
+    for g in ("getCurrentAllocationNumber", "getCurrentAllocationStage"):
+        f = prog.fn("MemoryLeakDetector::" + g)
+        ev = Evaluator(prog, f, env=dict(state))
+        ev.run_blocks(f.entry, max_steps=100)
+        out.append(getattr(ev, "ret", None))
+    return tuple(out)
+
+
 def detector_fold(prog, f, values, answers=None, extra_env=None):
     """Fold a MemoryLeakDetector method over a heap model with every environment call (underlying allocator, platform
     realloc, leak table, report buffer, guard-byte helpers) answered from `answers` and logged as (name, args).
@@ -171,8 +194,9 @@ def detector_fold(prog, f, values, answers=None, extra_env=None):
     for g in prog.functions.values():
         if g.qn.startswith("MemoryLeakOutputStringBuffer::report"):
             calls[g.qn] = h(g.qn.split("::")[-1])
-    env = {"allocationSequenceNumber_": 41, "current_period_": 3, "current_allocation_stage_": 7, "doAllocationTypeChecking_": 1,
-           "@6000.memory_": 50000, "@6000.size_": 13, "@6000.allocator_": 9000}
+    # the detector as its constructor and public operations leave it: checking period, two stages up, type checking on
+    env = detector_state(prog, [("startChecking", []), ("increaseAllocationStage", []), ("increaseAllocationStage", [])])
+    env.update({"@6000.memory_": 50000, "@6000.size_": 13, "@6000.allocator_": 9000})
     env.update(values)
     env.update(extra_env or {})
     ev = Evaluator(prog, f, env=env, calls=calls)
